@@ -105,6 +105,20 @@ PROPS = {
         outside=['astral and non-ASCII characters (decoder stubbed)', 'cch > 3', 'code pages other than 1200', 'sheet names / LABEL / formula-string records (same decode_to kernel, different callers)'],
         assumptions=['the CONTINUE layout follows MS-XLS 2.5.293: a flag byte only when the split falls inside the character array'],
     ),
+    'C03': dict(
+        level_text='Bounded model checking of the real xlsb record reader and cell decoder: varint record ids and lengths for all byte values, exact consumption of prefix + payload, and XlsbCellsReader::next_cell on streams [BrtRowHdr][optional ignorable record][cell record] for every cell record kind (BrtCellRk/Real/Bool/Error/St/Isst, BrtFmlaNum/String/Bool/Error) with symbolic row, column, style and value bytes and a symbolic 3-entry format / string table. The zip byte source is replaced by an in-memory source (declared substitution).',
+        hosts={'src/xlsb/mod.rs': ['c03_xlsb.rs'], 'src/xlsb/cells_reader.rs': ['c03_cells.rs']},
+        substitutions=[
+            dict(file='src/xlsb/mod.rs', old='    r: BufReader<ZipFile<\'a>>,\n', new='    r: k_c03_xlsb::KSrc<\'a>,\n', count=1, why='RecordIter byte source: BufReader<ZipFile> -> struct KSrc(&[u8]) implementing Read (environment stub for the zip layer)'),
+            dict(file='src/xlsb/mod.rs', old='                r: BufReader::new(f),\n', new='                r: { let _ = BufReader::new(f); k_c03_xlsb::KSrc(&[]) },\n', count=1, why='from_zip (never called by a harness) is cut off in the overlay: returns an empty in-memory source'),
+        ],
+        functions=['xlsb::RecordIter::read_u8', 'xlsb::RecordIter::read_type', 'xlsb::RecordIter::fill_buffer', 'xlsb::wide_str', 'xlsb::cell_format', 'xlsb::cells_reader::XlsbCellsReader::next_cell'],
+        stubs=['BufReader<ZipFile> byte source -> KSrc(&[u8]) (overlay substitution, 2 sites; RecordIter::from_zip cut off)', 'encoding_rs::Encoding::decode -> model_utf16_decode in the string shapes'],
+        bounds={'framing': 'ids: all 2-byte prefixes; lengths: 1..=2 prefix bytes quick (3,4 thorough), payload <= 3 bytes', 'cells': 'one cell record per kind after a row header, optional ignorable record (BrtCellBlank or a 2-byte-id record) in between; strings of 1..=2 chars; rows <= 1048575',
+                'tables': '3-entry format and shared-string tables'},
+        outside=['everything that needs ZipArchive (read_shared_strings, read_workbook, styles)', 'XlsbCellsReader::new (dimension / block skipping)', 'RK x100 values that are not multiples of 100 in quick (f64 division)', 'records longer than 127 bytes in quick'],
+        assumptions=['shared-string / style indices inside the tables (out-of-range: hostile input, C06)'],
+    ),
 }
 
 # (regex on harness name, overrides). First match wins after defaults.
@@ -113,6 +127,8 @@ RULES = [
     (r'^c10_', dict(arena=64)),
     (r'^c18_', dict(arena=64)),
     (r'^c12_', dict(arena=64)),
+    (r'^c03_', dict(arena=64)),
+    (r'^c03_[qt]_fill_buffer', dict(arena=256)),
     (r'^c13_[qt]_(chain|cutoff|stream|twin)', dict(arena=64)),
     (r'^c13_[qt]_header', dict(arena=512)),
     (r'^c13_q_cutoff', dict(min_covers=2)),
